@@ -655,6 +655,291 @@ Proof.
     exact (jnumber_tail false c ip' rest Hr Hz Hsp).
 Qed.
 
+Local Open Scope nat_scope.
+(* ---- floats: FormatFloat, then ParseFloat / the JSON number reader ------------------------------------- *)
+
+Definition all_zero (s : bytes) : bool := forallb (N.eqb 48) s.
+
+Lemma all_zero_repeat : forall k, all_zero (repeat 48%N k) = true.
+Proof. induction k; [reflexivity|]. cbn [repeat all_zero forallb]. exact IHk. Qed.
+
+Lemma fold_dstep_lead : forall z, all_zero z = true -> fold_left dstep z 0%N = 0%N.
+Proof.
+  induction z as [|c z IH]; intros H; [reflexivity|].
+  cbn [all_zero forallb] in H. apply andb_true_iff in H. destruct H as [Hc Hz]. apply N.eqb_eq in Hc. subst c.
+  cbn [fold_left]. change (dstep 0 48) with 0%N. exact (IH Hz).
+Qed.
+
+Lemma N_of_digits_lead : forall z ds, all_zero z = true -> N_of_digits (z ++ ds) = N_of_digits ds.
+Proof. intros z ds H. rewrite !N_of_digits_fold, fold_left_app, (fold_dstep_lead z H). reflexivity. Qed.
+
+Lemma strip_front_zeros : forall k d x, N.eqb d 48 = false ->
+  strip_zeros_front (repeat 48%N k ++ d :: x) = d :: x.
+Proof.
+  induction k as [|k IH]; intros d x H.
+  - cbn [repeat app strip_zeros_front]. now rewrite H.
+  - cbn [repeat app strip_zeros_front]. change (N.eqb 48 48) with true. cbv iota. now apply IH.
+Qed.
+
+Lemma strip_back_general : forall z ds' d k, N.eqb d 48 = false ->
+  strip_zeros_back (z ++ (ds' ++ [d]) ++ repeat 48%N k) = z ++ ds' ++ [d].
+Proof.
+  intros z ds' d k H. unfold strip_zeros_back.
+  rewrite !rev_app_distr, rev_repeat. cbn [rev app]. rewrite <- !app_assoc. cbn [app].
+  rewrite (strip_front_zeros k d _ H). cbn [rev]. rewrite rev_app_distr, !rev_involutive. now rewrite <- app_assoc.
+Qed.
+
+(* the last digit of a number not divisible by ten is not zero *)
+Lemma digits_last_nonzero : forall n, (n mod 10 <> 0)%N ->
+  exists ds' d, digits_of_N n = ds' ++ [d] /\ N.eqb d 48 = false.
+Proof.
+  intros n Hn. destruct (exists_last (digits_of_N_nonnil n)) as (ds' & d & E).
+  exists ds', d. split; [exact E|]. apply N.eqb_neq. intros ->.
+  apply Hn. rewrite <- (N_of_digits_of_N n), E, N_of_digits_fold, fold_left_app. cbn [fold_left].
+  unfold dstep at 1. change (48 - 48)%N with 0%N. rewrite N.add_0_r. apply N.mod_mul. discriminate.
+Qed.
+
+Local Open Scope Z_scope.
+
+
+Lemma abs_mod10 : forall m, m mod 10 <> 0 -> (Z.to_N (Z.abs m) mod 10 <> 0)%N.
+Proof.
+  intros m H E. apply H. clear H.
+  assert (H : Z.of_N (Z.to_N (Z.abs m) mod 10) = 0) by (rewrite E; reflexivity).
+  rewrite N2Z.inj_mod, Z2N.id in H by lia. change (Z.of_N 10) with 10 in H.
+  destruct (Z.abs_eq_or_opp m) as [Ea|Ea]; rewrite Ea in H; [exact H|].
+  apply Z.mod_divide in H; [|lia]. apply Z.mod_divide; [lia|].
+  destruct H as [q Hq]. exists (- q). lia.
+Qed.
+
+(* mk_dec on the digit strings FormatFloat writes for m * 10^e *)
+Lemma mk_dec_shape : forall neg m z k x, m <> 0 -> m mod 10 <> 0 -> all_zero z = true ->
+  mk_dec neg (z ++ digits_of_N (Z.to_N (Z.abs m)) ++ repeat 48%N k) x
+  = VDec (if neg then - Z.abs m else Z.abs m) (x + Z.of_nat k).
+Proof.
+  intros neg m z k x Hm Hm10 Hz.
+  destruct (digits_last_nonzero _ (abs_mod10 m Hm10)) as (ds' & d & E & Hd).
+  unfold mk_dec. rewrite E, (strip_back_general z ds' d k Hd), <- E.
+  rewrite (N_of_digits_lead z _ Hz), N_of_digits_of_N, Z2N.id by lia.
+  destruct (Z.eqb_spec (Z.abs m) 0); [lia|]. f_equal. f_equal.
+  rewrite !app_length, repeat_length. lia.
+Qed.
+
+Lemma forallb_firstn : forall (A : Type) (g : A -> bool) n (l : list A), forallb g l = true -> forallb g (firstn n l) = true.
+Proof.
+  intros A g n l H. rewrite <- (firstn_skipn n l) in H. rewrite forallb_app in H. now apply andb_true_iff in H.
+Qed.
+Lemma forallb_skipn : forall (A : Type) (g : A -> bool) n (l : list A), forallb g l = true -> forallb g (skipn n l) = true.
+Proof.
+  intros A g n l H. rewrite <- (firstn_skipn n l) in H. rewrite forallb_app in H. now apply andb_true_iff in H.
+Qed.
+Lemma forallb_digit_zeros : forall k, forallb is_digit (repeat 48%N k) = true.
+Proof. induction k; [reflexivity|]. cbn [repeat forallb]. exact IHk. Qed.
+
+(* the digit string and the exponent that strconv reads off the text  ip [ . f ] *)
+Definition frac_text (f : bytes) : bytes := match f with [] => [] | _ => b_dot :: f end.
+
+(* [fmt_f ds dp] as integer part and fraction part *)
+Definition fmt_parts (ds : bytes) (dp : Z) : bytes * bytes :=
+  if dp <=? 0 then ([b_zero], repeat b_zero (Z.to_nat (- dp)) ++ ds)
+  else if Z.of_nat (length ds) <=? dp then (ds ++ repeat b_zero (Z.to_nat dp - length ds), [])
+  else (firstn (Z.to_nat dp) ds, skipn (Z.to_nat dp) ds).
+
+Lemma fmt_f_parts : forall ds dp, ds <> [] ->
+  fmt_f ds dp = fst (fmt_parts ds dp) ++ frac_text (snd (fmt_parts ds dp)).
+Proof.
+  intros ds dp Hne. unfold fmt_f, fmt_parts.
+  destruct (Z.leb_spec dp 0).
+  - cbn [fst snd]. destruct (repeat b_zero (Z.to_nat (- dp)) ++ ds) eqn:E.
+    + apply app_eq_nil in E. destruct E as [_ E]. contradiction.
+    + cbn [frac_text app]. reflexivity.
+  - destruct (Z.leb_spec (Z.of_nat (length ds)) dp).
+    + cbn [fst snd frac_text]. now rewrite app_nil_r.
+    + cbn [fst snd]. destruct (skipn (Z.to_nat dp) ds) eqn:E.
+      * exfalso. assert (Hl : length (skipn (Z.to_nat dp) ds) = O) by (rewrite E; reflexivity).
+        rewrite skipn_length in Hl. lia.
+      * cbn [frac_text app]. reflexivity.
+Qed.
+
+(* what the parts denote *)
+Lemma fmt_parts_spec : forall neg m e, m <> 0 -> m mod 10 <> 0 ->
+  let ds := digits_of_N (Z.to_N (Z.abs m)) in
+  let p := fmt_parts ds (Z.of_nat (length ds) + e) in
+  forallb is_digit (fst p) = true /\ fst p <> [] /\ forallb is_digit (snd p) = true /\
+  (exists c r, fst p = c :: r /\ (N.eqb c 48 && negb (match r with [] => true | _ => false end)) = false) /\
+  mk_dec neg (fst p ++ snd p) (0 - Z.of_nat (length (snd p))) = VDec (if neg then - Z.abs m else Z.abs m) e.
+Proof.
+  intros neg m e Hm Hm10 ds p.
+  pose proof (digits_of_N_digits (Z.to_N (Z.abs m))) as Hd. fold ds in Hd.
+  assert (Hne : ds <> []) by apply digits_of_N_nonnil.
+  assert (Hhead : exists c r, ds = c :: r /\ N.eqb c 48 = false).
+  { destruct (digits_of_N_shape (Z.to_N (Z.abs m))) as [[E _]|[_ H]]; [lia|exact H]. }
+  destruct Hhead as (c & r & Eds & Hc).
+  assert (Hlen : (0 < length ds)%nat) by (rewrite Eds; cbn; lia).
+  unfold p, fmt_parts. destruct (Z.leb_spec (Z.of_nat (length ds) + e) 0) as [H1|H1].
+  - cbn [fst snd]. split; [reflexivity|]. split; [discriminate|]. split.
+    { rewrite forallb_app, forallb_digit_zeros, Hd. reflexivity. }
+    split; [exists 48%N, []; split; reflexivity|].
+    pose proof (mk_dec_shape neg m ([b_zero] ++ repeat b_zero (Z.to_nat (- (Z.of_nat (length ds) + e)))) O
+                  (0 - Z.of_nat (length (repeat b_zero (Z.to_nat (- (Z.of_nat (length ds) + e))) ++ ds))) Hm Hm10) as Hk.
+    fold ds in Hk. cbn [repeat] in Hk. rewrite app_nil_r in Hk. rewrite <- app_assoc in Hk. rewrite Hk.
+    + f_equal. rewrite app_length, repeat_length. lia.
+    + cbn [app all_zero forallb]. change (N.eqb 48 b_zero) with true. exact (all_zero_repeat _).
+  - destruct (Z.leb_spec (Z.of_nat (length ds)) (Z.of_nat (length ds) + e)) as [H2|H2].
+    + cbn [fst snd]. split; [rewrite forallb_app, forallb_digit_zeros, Hd; reflexivity|].
+      split; [intros E; apply app_eq_nil in E; destruct E; contradiction|]. split; [reflexivity|].
+      split.
+      { rewrite Eds. cbn [app]. eexists _, _. split; [reflexivity|]. now rewrite Hc. }
+      rewrite app_nil_r.
+      pose proof (mk_dec_shape neg m [] (Z.to_nat (Z.of_nat (length ds) + e) - length ds) (0 - Z.of_nat (length (@nil N))) Hm Hm10 eq_refl) as Hk.
+      fold ds in Hk. cbn [app] in Hk. change b_zero with 48%N. rewrite Hk. f_equal. cbn [length]. lia.
+    + cbn [fst snd]. set (n := Z.to_nat (Z.of_nat (length ds) + e)).
+      assert (Hn : (0 < n < length ds)%nat) by (unfold n; lia).
+      split; [now apply forallb_firstn|]. split.
+      { rewrite Eds. destruct n; [lia|]. discriminate. }
+      split; [now apply forallb_skipn|]. split.
+      { rewrite Eds. destruct n as [|n']; [lia|]. cbn [firstn]. eexists _, _. split; [reflexivity|]. now rewrite Hc. }
+      rewrite firstn_skipn.
+      pose proof (mk_dec_shape neg m [] O (0 - Z.of_nat (length (skipn n ds))) Hm Hm10 eq_refl) as Hk.
+      fold ds in Hk. cbn [app repeat] in Hk. rewrite app_nil_r in Hk. rewrite Hk. f_equal.
+      rewrite skipn_length. unfold n. lia.
+Qed.
+
+Definition sign_text (neg : bool) : bytes := if neg then [b_minus] else [].
+
+Lemma number_parts : forall neg ip f, forallb is_digit ip = true -> ip <> [] -> forallb is_digit f = true ->
+  is_number (sign_text neg ++ ip ++ frac_text f) = true /\
+  parse_number (sign_text neg ++ ip ++ frac_text f) = mk_dec neg (ip ++ f) (0 - Z.of_nat (length f)).
+Proof.
+  intros neg ip f Hip Hne Hf. destruct ip as [|c r]; [congruence|].
+  assert (Hc : is_digit c = true) by (cbn [forallb] in Hip; now apply andb_true_iff in Hip).
+  assert (Hu : unsign (sign_text neg ++ (c :: r) ++ frac_text f) = (neg, (c :: r) ++ frac_text f)).
+  { destruct neg; [reflexivity|]. cbn [sign_text app]. now apply unsign_digit. }
+  unfold is_number, parse_number. rewrite Hu. cbn [snd].
+  destruct f as [|d f'].
+  - cbn [frac_text]. rewrite !app_nil_r.
+    rewrite (split_first_none b_dot (c :: r) (byte_index_nondigit b_dot _ eq_refl Hip)).
+    split; [exact Hip|reflexivity].
+  - cbn [frac_text].
+    rewrite (split_first_app b_dot (c :: r) (d :: f') (byte_index_nondigit b_dot _ eq_refl Hip)).
+    split; [|f_equal; lia]. unfold all_digits1 at 1. rewrite Hip. exact Hf.
+Qed.
+
+
+Lemma dec_normal_nz : forall m e, dec_normal m e = true -> m <> 0 -> m mod 10 <> 0.
+Proof.
+  intros m e H Hm. unfold dec_normal in H. destruct (Z.eqb_spec m 0); [contradiction|].
+  apply negb_true_iff in H. now apply Z.eqb_neq in H.
+Qed.
+
+Lemma signed_abs : forall m, (if m <? 0 then - Z.abs m else Z.abs m) = m.
+Proof. intros m. destruct (Z.ltb_spec m 0); lia. Qed.
+
+(* a float64 of everyday magnitude: %v writes plain digits, ParseAny reads the same float64 back *)
+Theorem parse_any_float_v : forall m e, dec_normal m e = true ->
+  (m = 0 \/ (-4 <= dec_exp m e < 6)) ->
+  parse_any (fmt_float_v m e) = Ok (VDec m e).
+Proof.
+  intros m e Hn Hr. destruct (Z.eq_dec m 0) as [->|Hm].
+  - unfold dec_normal in Hn. cbn in Hn. apply Z.eqb_eq in Hn. subst e. reflexivity.
+  - destruct Hr as [Hr|Hr]; [contradiction|].
+    pose proof (dec_normal_nz m e Hn Hm) as Hm10.
+    unfold fmt_float_v. destruct (Z.eqb_spec m 0); [contradiction|].
+    set (ds := digits_of_N (Z.to_N (Z.abs m))) in *.
+    assert (Hex : ((Z.of_nat (length ds) + e - 1 <? -4) || (6 <=? Z.of_nat (length ds) + e - 1)) = false).
+    { unfold dec_exp, sig_digits in Hr. fold ds in Hr. apply orb_false_iff. split; [apply Z.ltb_ge|apply Z.leb_gt]; lia. }
+    rewrite Hex.
+    destruct (fmt_parts_spec (m <? 0) m e Hm Hm10) as (Hip & Hne & Hf & _ & Hmk). fold ds in Hip, Hne, Hf, Hmk.
+    rewrite (fmt_f_parts ds _ (digits_of_N_nonnil _)).
+    set (p := fmt_parts ds (Z.of_nat (length ds) + e)) in *.
+    destruct (number_parts (m <? 0) (fst p) (snd p) Hip Hne Hf) as [Hnum Hpar].
+    change (if m <? 0 then [b_minus] else []) with (sign_text (m <? 0)).
+    destruct (sign_text (m <? 0) ++ fst p ++ frac_text (snd p)) as [|c t] eqn:Etext.
+    { destruct (m <? 0); [discriminate Etext|]. cbn [sign_text app] in Etext. apply app_eq_nil in Etext.
+      destruct Etext; contradiction. }
+    rewrite parse_any_number; [|..].
+    + rewrite Hpar, Hmk, signed_abs. reflexivity.
+    + destruct (m <? 0).
+      * cbn [sign_text app] in Etext. injection Etext as <- _. reflexivity.
+      * cbn [sign_text app] in Etext. destruct (fst p) as [|c' r'] eqn:Ep; [congruence|].
+        cbn [app] in Etext. injection Etext as <- _. apply digit_lt_65.
+        cbn [forallb] in Hip. now apply andb_true_iff in Hip.
+    + exact Hnum.
+Qed.
+
+(* ---- the JSON number reader on  [-] ip [ . f ] ---------------------------------------------------------- *)
+
+Lemma span_digits_stop : forall ds x, forallb is_digit ds = true ->
+  match x with [] => True | c :: _ => is_digit c = false end ->
+  span_digits (ds ++ x) = (ds, x).
+Proof.
+  induction ds as [|c ds IH]; intros x Hd Hx.
+  - cbn [app]. destruct x as [|c r]; [reflexivity|]. cbn [span_digits]. now rewrite Hx.
+  - cbn [forallb] in Hd. apply andb_true_iff in Hd. destruct Hd as [Hc Hds].
+    cbn [app span_digits]. rewrite Hc, (IH x Hds Hx). reflexivity.
+Qed.
+
+Lemma rest_ok_nondigit : forall rest, rest_ok rest = true ->
+  match rest with [] => True | c :: _ => is_digit c = false end.
+Proof.
+  intros [|c r] H; [exact I|]. destruct (rest_ok_cases c r H) as [->|[->| ->]]; reflexivity.
+Qed.
+
+Lemma jnumber_shape : forall neg ip f rest,
+  forallb is_digit ip = true -> forallb is_digit f = true -> rest_ok rest = true ->
+  (exists c r, ip = c :: r /\ (N.eqb c 48 && negb (match r with [] => true | _ => false end)) = false) ->
+  jnumber (sign_text neg ++ ip ++ frac_text f ++ rest) = Some (mk_dec neg (ip ++ f) (0 - Z.of_nat (length f)), rest).
+Proof.
+  intros neg ip f rest Hip Hf Hr (c & r & Eip & Hz). subst ip.
+  assert (Hc : is_digit c = true) by (cbn [forallb] in Hip; now apply andb_true_iff in Hip).
+  assert (Hsp : span_digits ((c :: r) ++ frac_text f ++ rest) = (c :: r, frac_text f ++ rest)).
+  { apply span_digits_stop; [exact Hip|]. destruct f as [|d f']; [apply rest_ok_nondigit, Hr|reflexivity]. }
+  unfold jnumber. destruct neg; cbn [sign_text app];
+    [change (N.eqb b_minus b_minus) with true | rewrite (digit_not c b_minus Hc eq_refl)]; cbv beta iota;
+    cbn [app] in Hsp; rewrite Hsp, Hz; clear Hsp.
+  all: destruct f as [|d f'].
+  all: try (cbn [frac_text app]; rewrite ?app_nil_r;
+            destruct rest as [|x rr];
+            [cbv beta iota zeta; rewrite ?app_nil_r; reflexivity
+            |destruct (rest_ok_cases x rr Hr) as [->|[->| ->]]; cbv beta iota zeta;
+               cbn [N.eqb orb b_dot b_comma b_rbrack b_rbrace Pos.eqb]; cbv beta iota zeta; rewrite ?app_nil_r; reflexivity]).
+  all: cbn [frac_text app]; change (N.eqb b_dot b_dot) with true; cbv beta iota zeta;
+       change (d :: f' ++ rest) with ((d :: f') ++ rest);
+       rewrite (span_digits_stop (d :: f') rest Hf (rest_ok_nondigit rest Hr));
+       destruct rest as [|x rr];
+       [cbv beta iota zeta; rewrite ?app_nil_r; reflexivity
+       |destruct (rest_ok_cases x rr Hr) as [->|[->| ->]]; cbv beta iota zeta;
+          cbn [N.eqb orb b_dot b_comma b_rbrack b_rbrace Pos.eqb]; cbv beta iota zeta; rewrite ?app_nil_r; reflexivity].
+Qed.
+
+(* encoding/json writes a float64 of magnitude 1e-6 .. 1e21 in plain digits; the reader gets the same float64 *)
+Theorem jnumber_float : forall m e rest, dec_normal m e = true ->
+  (m = 0 \/ (-6 <= dec_exp m e < 21)) -> rest_ok rest = true ->
+  jnumber (fmt_float_json m e ++ rest) = Some (VDec m e, rest).
+Proof.
+  intros m e rest Hn Hr Hrest. destruct (Z.eq_dec m 0) as [->|Hm].
+  - unfold dec_normal in Hn. cbn in Hn. apply Z.eqb_eq in Hn. subst e.
+    change (fmt_float_json 0 0) with (sign_text false ++ [b_zero] ++ frac_text []).
+    rewrite <- !app_assoc.
+    rewrite (jnumber_shape false [b_zero] [] rest eq_refl eq_refl Hrest); [reflexivity|].
+    exists b_zero, []. split; reflexivity.
+  - destruct Hr as [Hr|Hr]; [contradiction|].
+    pose proof (dec_normal_nz m e Hn Hm) as Hm10.
+    unfold fmt_float_json. destruct (Z.eqb_spec m 0); [contradiction|].
+    set (ds := digits_of_N (Z.to_N (Z.abs m))) in *.
+    assert (Hex : ((Z.of_nat (length ds) + e - 1 <? -6) || (21 <=? Z.of_nat (length ds) + e - 1)) = false).
+    { unfold dec_exp, sig_digits in Hr. fold ds in Hr. apply orb_false_iff. split; [apply Z.ltb_ge|apply Z.leb_gt]; lia. }
+    rewrite Hex.
+    destruct (fmt_parts_spec (m <? 0) m e Hm Hm10) as (Hip & Hne & Hf & Hlead & Hmk). fold ds in Hip, Hne, Hf, Hlead, Hmk.
+    rewrite (fmt_f_parts ds _ (digits_of_N_nonnil _)).
+    set (p := fmt_parts ds (Z.of_nat (length ds) + e)) in *.
+    change (if m <? 0 then [b_minus] else []) with (sign_text (m <? 0)).
+    rewrite <- !app_assoc.
+    rewrite (jnumber_shape (m <? 0) (fst p) (snd p) rest Hip Hf Hrest Hlead), Hmk, signed_abs. reflexivity.
+Qed.
+
+Local Close Scope Z_scope.
+
 (* ---- lists and maps ---- *)
 
 Lemma elems_of_S : forall jv n s acc, elems_of jv (S n) s acc =
@@ -870,13 +1155,42 @@ Proof.
   destruct (is_digit_cases c H) as [->|[->|[->|[->|[->|[->|[->|[->|[->| ->]]]]]]]]]; split; reflexivity.
 Qed.
 
+Lemma dec_json_safe_spec : forall m e, dec_json_safe m e = true ->
+  dec_normal m e = true /\ (m = 0 \/ (-6 <= dec_exp m e < 21))%Z.
+Proof.
+  intros m e H. unfold dec_json_safe in H. apply andb_true_iff in H. destruct H as [Hn H]. split; [exact Hn|].
+  apply orb_true_iff in H. destruct H as [H|H]; [left; now apply Z.eqb_eq in H|right].
+  apply andb_true_iff in H. destruct H as [H1 H2]. apply Z.leb_le in H1. apply Z.ltb_lt in H2. lia.
+Qed.
+
+Lemma dec_top_safe_spec : forall m e, dec_top_safe m e = true ->
+  dec_normal m e = true /\ (m = 0 \/ (-4 <= dec_exp m e < 6))%Z.
+Proof.
+  intros m e H. unfold dec_top_safe in H. apply andb_true_iff in H. destruct H as [Hn H]. split; [exact Hn|].
+  apply orb_true_iff in H. destruct H as [H|H]; [left; now apply Z.eqb_eq in H|right].
+  apply andb_true_iff in H. destruct H as [H1 H2]. apply Z.leb_le in H1. apply Z.ltb_lt in H2. lia.
+Qed.
+
+(* the text of a float starts with a digit or the sign (read off the reader's own success) *)
+Lemma fmt_float_json_head : forall m e, dec_json_safe m e = true ->
+  exists c t, fmt_float_json m e = c :: t /\ (is_digit c = true \/ c = b_minus).
+Proof.
+  intros m e H. destruct (dec_json_safe_spec m e H) as [Hn Hr].
+  pose proof (jnumber_float m e [] Hn Hr eq_refl) as Hj. rewrite app_nil_r in Hj.
+  destruct (fmt_float_json m e) as [|c t]; [discriminate Hj|]. exists c, t. split; [reflexivity|].
+  unfold jnumber in Hj. destruct (N.eqb_spec c b_minus) as [->|Hc]; [now right|left].
+  cbn [span_digits] in Hj. destruct (is_digit c); [reflexivity|discriminate Hj].
+Qed.
+
 Lemma marshal_head : forall v, jsafe v = true ->
   exists c t, json_marshal v = c :: t /\ is_ws c = false /\ N.eqb c b_rbrack = false.
 Proof.
-  intros v H. destruct v as [|b|z|m e|s|l|kvs]; try discriminate H.
+  intros v H. destruct v as [|b|z|m e|s|l|kvs].
   - eexists _, _. repeat split; reflexivity.
   - destruct b; eexists _, _; repeat split; reflexivity.
   - destruct (digits_of_Z_head z) as (c & t & E & Hc). exists c, t. cbn [json_marshal]. split; [exact E|].
+    now apply head_not_ws.
+  - destruct (fmt_float_json_head m e H) as (c & t & E & Hc). exists c, t. cbn [json_marshal]. split; [exact E|].
     now apply head_not_ws.
   - eexists _, _. repeat split; reflexivity.
   - eexists _, _. rewrite json_marshal_list_eq. repeat split; reflexivity.
@@ -898,7 +1212,11 @@ Proof.
     destruct (digits_of_Z_head z) as (c & t & E & Hc). rewrite E. cbn [app].
     rewrite (jvalue_number_head fuel c (t ++ rest) Hc).
     change (c :: t ++ rest) with ((c :: t) ++ rest). rewrite <- E. now apply jnumber_int.
-  - discriminate Hs.
+  - destruct fuel; [lia|]. cbn [jsafe] in Hs. cbn [json_marshal floatify].
+    destruct (fmt_float_json_head m e Hs) as (c & t & E & Hc). rewrite E. cbn [app].
+    rewrite (jvalue_number_head fuel c (t ++ rest) Hc).
+    change (c :: t ++ rest) with ((c :: t) ++ rest). rewrite <- E.
+    destruct (dec_json_safe_spec m e Hs) as [Hn Hrg]. now apply jnumber_float.
   - destruct fuel; [lia|]. cbn [jsafe] in Hs. cbn [json_marshal floatify].
     rewrite (json_string_plain s Hs). cbn [app]. rewrite <- app_assoc. cbn [app].
     rewrite jvalue_S, skip_ws_nonws by reflexivity. change (N.eqb b_dquote b_dquote) with true. cbv iota.
@@ -1088,7 +1406,7 @@ Proof. intros T z. destruct T; reflexivity. Qed.
 Theorem dw_floatify : forall T, FL T.
 Proof.
   induction T as [| | b | b | b | | t IH | t IH | t IH | fs IH] using ftype_ind'; intros v Hj Hn;
-    (destruct v as [|bb|z|m e|s|l|kvs]; [reflexivity|reflexivity| |discriminate Hj|reflexivity| | ]);
+    (destruct v as [|bb|z|m e|s|l|kvs]; [reflexivity|reflexivity| |reflexivity|reflexivity| | ]);
     try (cbn [floatify]; apply FL_scalar_int; [exact Hj|exact I]);
     try (rewrite (no_int_floatify _ Hn); reflexivity).
   - (* TAny, VInt *) discriminate Hn.
@@ -1146,6 +1464,11 @@ Proof.
     destruct (digits_of_Z z) as [|c t] eqn:E; [exfalso; exact (digits_of_Z_nonnil _ E)|].
     rewrite bind_value_cons, <- E, parse_any_digits. cbn [rbind]. unfold decode_weak, bind_prefix, bind_prefix_r.
     apply (dw_floatify T (VInt z)); [exact Hs|now rewrite nsafe_int].
+  - cbn [safe] in H. destruct (dec_top_safe_spec m e H) as [Hn Hr].
+    pose proof (parse_any_float_v m e Hn Hr) as Hp.
+    unfold bind_formatted. cbn [format_any rbind].
+    destruct (fmt_float_v m e) as [|c t]; [discriminate Hp|].
+    rewrite bind_value_cons, Hp. reflexivity.
   - cbn [safe] in H. apply andb_true_iff in H. destruct H as [Hp Hne].
     unfold bind_formatted. cbn [format_any rbind]. destruct s as [|c t]; [discriminate Hne|].
     rewrite bind_value_cons, (plain_parse _ Hp). reflexivity.
